@@ -172,7 +172,27 @@ class MapDecoder:
                 p = p[1]
             if f is not None:
                 out.append((f, e))
-        return out
+        # `result.field = helper(value)?` where the (inlined) helper builds a fresh Vec / set in a local and hands it back: the
+        # pushes / inserts made on that local are the effects on the field (which is empty when its label is first seen)
+        final = []
+        for f, e in out:
+            sub = None
+            if e["kind"] == "assign" and e.get("idx") not in (None, "term"):
+                st = self.fn.blocks[e["bb"]]["stmts"][e["idx"]]
+                if st["rv"]["k"] == "use":
+                    from .codec import built_local
+                    L = built_local(self.fn, self.pv, st["rv"]["op"], e["bb"], e["idx"])
+                    if L is not None:
+                        made = [e2 for e2 in self.pv.effects() if e2["kind"] == "call" and e2["place"][0] == "local" and e2["place"][1] == L]
+                        if made:
+                            sub = []
+                            for e2 in made:
+                                e3 = dict(e2)
+                                e3["place"] = e["place"]
+                                e3["via_local"] = L
+                                sub.append((f, e3))
+            final.extend(sub if sub is not None else [(f, e)])
+        return final
 
     # -- duplicate detection --------------------------------------------------------------
     def _dup_check(self):
@@ -593,12 +613,15 @@ class MapEncoder:
         fn, pv, prog = self.fn, self.pv, self.prog
         self.const_inserts = []   # (k, bb, conds)
         self.sets = set()
+        if pv._defs is None:
+            pv._collect_defs()
         for e in pv.effects():
             if e["kind"] == "call" and e["callee"] == SET_INSERT and e["place"][0] == "local":
-                self.sets.add(e["place"][1])
+                root = self._set_root(e["place"][1])
+                self.sets.add(root)
                 k = const_label_int(prog, e["args"][1])
                 if k is not None:
-                    self.const_inserts.append((k, e["bb"], conditions(fn, pv, e["bb"]), e["place"][1]))
+                    self.const_inserts.append((k, e["bb"], conditions(fn, pv, e["bb"]), root))
         self.set_created_in_loop = False
         self.set_reset = False
         self.set_starts_empty = True
@@ -614,6 +637,17 @@ class MapEncoder:
             if e["kind"] == "call" and e["place"][0] == "local" and e["place"][1] in self.sets \
                     and e["callee"] not in (SET_INSERT, SET_CONTAINS):
                 self.set_reset = True
+
+    def _set_root(self, l, depth=0):
+        """the set a local holds: a set moved (by value) into an inlined helper's parameter is still the same set"""
+        pv = self.pv
+        if pv._defs is None:
+            pv._collect_defs()
+        ds = [d for d in pv._defs if d[0] == l]
+        if len(ds) == 1 and ds[0][2] != "term" and ds[0][3]["k"] == "use" and ds[0][3]["op"].get("k") == "move" \
+                and not ds[0][3]["op"]["place"]["p"] and depth < 6:
+            return self._set_root(ds[0][3]["op"]["place"]["l"], depth + 1)
+        return l
 
     def loop_dup_check(self, ent):
         """for an extras-loop entry: is the push dominated by `if seen.contains(&label) { return Err(Dup) }`
@@ -635,7 +669,7 @@ class MapEncoder:
                 if a1 == src:
                     contains_bb = bb
                     lv = pv._borrowed_lvalue(t["args"][0], bb)
-                    setl = lv[1] if lv[0] == "local" else None
+                    setl = self._set_root(lv[1]) if lv[0] == "local" else None
             if name == SET_INSERT:
                 a1 = pv.operand_term(t["args"][1], bb, "term")
                 if is_call(a1) and a1[1].endswith("::clone"):
@@ -645,7 +679,7 @@ class MapEncoder:
                     insert_bb = bb
                     if setl is None:
                         lv = pv._borrowed_lvalue(t["args"][0], bb)
-                        setl = lv[1] if lv[0] == "local" else None
+                        setl = self._set_root(lv[1]) if lv[0] == "local" else None
         style = None
         for o in outcomes(fn, pv):
             if o["kind"] == "err" and o["inner"][0] == "aggr" and o["inner"][2] == "DuplicateMapKey":
